@@ -15,7 +15,7 @@ PROFILES = {
     "accum":     dict(sig=3, slot=3, conn=2, block=3, emit=5, clear=1, track=1, handle=0, slotval=0, scoped=0, chain=0, reent=1, throw=0, acc=8),
 }
 
-SHAPES_BY_NREFS = {0: ["p"], 1: ["m", "n", "b", "t"], 2: ["b", "t"], 3: ["b", "t"]}
+SHAPES_BY_NREFS = {0: ["p", "p", "p", "v"], 1: ["m", "n", "b", "t"], 2: ["b", "t", "u"], 3: ["b", "t"]}
 
 
 class Gen:
@@ -80,13 +80,13 @@ class Gen:
         g = self.fresh("g")
         rk = self.r.choice("iiv")
         acc = -1
-        if rk == "i" and self.r.random() < self.w["acc"] / 10.0:
-            acc = self.new_acc()
+        if self.r.random() < (self.w["acc"] / 10.0 if rk == "i" else self.w["acc"] / 25.0):
+            acc = self.new_acc(void=(rk == "v"))
         track = 1 if self.r.random() < (0.5 if self.w["chain"] else 0.25) else 0
         self.sg[g] = (rk, acc, track)
         return ["gnew %d %s %d %d" % (g, rk, acc, track)]
 
-    def new_acc(self):
+    def new_acc(self, void=False):
         a = self.nacc
         self.nacc += 1
         r = self.r
@@ -115,6 +115,9 @@ class Gen:
         # half of the scripts use the postfix operators of the iterator (same meaning)
         if r.random() < 0.5:
             ops = [o.replace("ainc ", "aincp ").replace("adec ", "adecp ").replace("awalk ", "awalkp ").replace("awalkrev ", "awalkrevp ") for o in ops]
+        if void:
+            # dereferencing yields nothing on a void signal: no value to stop on
+            ops = [("awalk %s" % o.split()[1]) if o.startswith("awalkuntil") else o for o in ops]
         self.accs[a] = ops
         return a
 
